@@ -33,6 +33,11 @@ func init() {
 			{Name: "S-AUDIT/scripted", Weight: 3, Run: c13Run},
 			{Name: "S-AUDIT/pair-udp", Weight: 2, Run: func(e *Env) { c04RunOpt(e, TrUDP, true, true) }},
 			{Name: "S-AUDIT/pair-tcp", Weight: 1, Run: func(e *Env) { c04RunOpt(e, TrTCP, false, true) }},
+			// the keep-alive workload of C18: its pings are exchanges too - an answered or superseded ping leaves nothing behind
+			{Name: "S-AUDIT/keep-alive", Weight: 1, Run: func(e *Env) {
+				e.RuleRename, e.RulePrefix = [2]string{"C18.R7", "C13.R8"}, "C13."
+				c18Run(e, true)
+			}},
 		},
 		Quick:    150000,
 		Thorough: 2000000,
